@@ -35,6 +35,12 @@ theorem giveUp_sender (r : Nat) : ev (envG r 1) Generated.ch_giveUp = .bool (dec
 theorem giveUp_receiver (r : Nat) : ev (envG r (-1)) Generated.ch_giveUp = .bool false := by
   rw [giveUp_good]; simp
 
+/-- a failed attempt to re-create the stream leaves the old stream object in place (`sRcDo` / `rRcDo`, failing
+    branches: `alive` stays false and the receiver's next read is `rRecvErr`): `reconnect` assigns the stream field
+    only when the new stream exists.  (The pinned code stored nil there; a receiver between two reads then crashed
+    the process — found by engine crashrace, repaired by fix e211800.) -/
+theorem reconnectKeepsStream_good : Generated.ch_reconnectKeepsStream = true := by decide
+
 /-- replacement of a stream: `reconnect` runs `cancelPendingMsgs(true)` under the write lock, after the
     "already up" test and before it creates the new stream (`replaceStream` in `sRcDo` / `rRcDo`; Chan:
     `replaceCancel`); `sendMsg` marks a request as written before it hands it to the stream, and
@@ -68,6 +74,7 @@ open GorumsV.Tie.C09 GorumsV.C09
 #print axioms closed_stuck_means_exited
 #print axioms closed_no_stream
 #print axioms sender_exit_leaves_no_request
+#print axioms GorumsV.Tie.C09.reconnectKeepsStream_good
 #print axioms GorumsV.Tie.C09.replacement_good
 #print axioms lost_is_cancelled
 #print axioms lost_means_dead
